@@ -60,9 +60,9 @@ struct bitset {
     )
         : bitset(0ULL)
     {
-        auto const len = etl::min<decltype(pos)>(n, str.size() - pos);
-        TETL_PRECONDITION(len >= 0);
-        TETL_PRECONDITION(len <= size());
+        // Only the first min(Bits, rlen) characters are used (same as std::bitset).
+        auto const rlen = etl::min<decltype(pos)>(n, str.size() - pos);
+        auto const len  = etl::min<decltype(pos)>(rlen, size());
 
         // The last character used corresponds to bit 0 (same as std::bitset).
         for (decltype(pos) i = 0; i < len; ++i) {
